@@ -9,9 +9,9 @@
    axis is not centred).  Pixels are of an arbitrary type A with a constant
    zero (so the statements cover integer and float images alike);
    px zero IM i j is IM[i][j].  Origins are integers (Z) or rationals (Q). *)
-From Coq Require Import List Arith Bool ZArith QArith Lia.
+From Coq Require Import List Arith Bool ZArith QArith Qround Qabs Reals Lia.
 From PA Require Import base.Arr base.Px model.Center proofs.CenterAxis proofs.CenterProofs
-  proofs.CenterCor proofs.CenterPrep proofs.CenterImage proofs.CenterTop.
+  proofs.CenterCor proofs.CenterPrep proofs.CenterImage proofs.CenterTop proofs.OriginSums proofs.CenterLin.
 Import ListNotations.
 Local Open Scope nat_scope.
 
@@ -33,8 +33,9 @@ Print Assumptions C12_set_center_whole_pixel.
 Theorem C12_whole_origin :
   (forall n order k, whole_origin n order (inject_Z k) = wrap n k) /\
   (forall n q, whole_origin n 0 q =
-               qround_even (if Qle_bool 0 q then q else q + inject_Z (Z.of_nat n))%Q).
-Proof. exact (conj whole_origin_int whole_origin_order0). Qed.
+               qround_even (if Qle_bool 0 q then q else q + inject_Z (Z.of_nat n))%Q) /\
+  (forall q, (Qabs (q - inject_Z (qround_even q)) <= 1 # 2)%Q).
+Proof. exact (conj whole_origin_int (conj whole_origin_order0 qround_even_near)). Qed.
 Print Assumptions C12_whole_origin.
 
 (* General form: every shape, every origin inside the image, every selection of
@@ -170,6 +171,54 @@ Proof.
                 (fun k or0 H => negative_origin_wrap1 zero one add sub mul ofQ data or0 cr ax0 ax1 order H)).
 Qed.
 Print Assumptions C12_negative_origin_wrap.
+
+(* Fractional origin, order = 1 (two-tap linear interpolation of the
+   zero-extended image; lin2R n' m' off0 t0 off1 t1 data is the image
+   out[i][j] = data(i + off0 + t0, j + off1 + t1) interpolated): total intensity
+   mass2 is preserved and the first moments mom0 / mom1 move by exactly the
+   requested amount, provided the content keeps a one-pixel margin inside the
+   sampled window (no tolerance: exact over the reals). *)
+Theorem C12_shift1_mass_centroid :
+  forall (n m n' m' : nat) (data : list (list R)) (off0 off1 : Z) (t0 t1 : R),
+  wf n m data ->
+  (forall i j, (i < off0 + 1 \/ off0 + Z.of_nat n' <= i \/ j < off1 + 1 \/ off1 + Z.of_nat m' <= j)%Z ->
+     pxzR data i j = 0%R) ->
+  let out := lin2R n' m' off0 t0 off1 t1 data in
+  (mass2 n' m' out = mass2 n m data /\
+   mom0 n' m' out = mom0 n m data - (IZR off0 + t0) * mass2 n m data /\
+   mom1 n' m' out = mom1 n m data - (IZR off1 + t1) * mass2 n m data)%R.
+Proof.
+  exact (fun n m n' m' data off0 off1 t0 t1 Hwf Hm =>
+           conj (lin2_mass n m n' m' data off0 off1 t0 t1 Hwf Hm)
+                (conj (lin2_mom0 n m n' m' data off0 off1 t0 t1 Hwf Hm)
+                      (lin2_mom1 n m n' m' data off0 off1 t0 t1 Hwf Hm))).
+Qed.
+Print Assumptions C12_shift1_mass_centroid.
+
+(* set_center(order=1, crop='maintain_size') with origin (i0 + s0, i1 + s1),
+   0 <= s < 1: the centroid of the result is the centre pixel plus the original
+   centroid-to-origin offset, exactly. *)
+Theorem C12_shift1_maintain_size :
+  forall (n m : nat) (data : list (list R)) (i0 i1 : Z) (s0 s1 : Q),
+  wf n m data -> 0 < n -> Qfloor s0 = 0%Z -> Qfloor s1 = 0%Z ->
+  (forall i j,
+     (i < i0 - Z.of_nat (n / 2) + 1 \/ i0 - Z.of_nat (n / 2) + Z.of_nat n <= i \/
+      j < i1 - Z.of_nat (m / 2) + 1 \/ i1 - Z.of_nat (m / 2) + Z.of_nat m <= j)%Z -> pxzR data i j = 0%R) ->
+  exists out,
+    set_center_linR data (Some (i0, s0)) (Some (i1, s1)) MaintainSize = Ok out /\
+    (mass2 n m out = mass2 n m data /\
+     mom0 n m out = mom0 n m data - (IZR i0 + Q2R s0 - IZR (Z.of_nat (n / 2))) * mass2 n m data /\
+     mom1 n m out = mom1 n m data - (IZR i1 + Q2R s1 - IZR (Z.of_nat (m / 2))) * mass2 n m data)%R.
+Proof. exact shift1_maintain_size. Qed.
+Print Assumptions C12_shift1_maintain_size.
+
+Theorem C12_shift1_centroid :
+  forall (n m : nat) (data out : list (list R)) (i0 : Z) (s0 : Q),
+  (mass2 n m data <> 0 -> mass2 n m out = mass2 n m data ->
+   mom0 n m out = mom0 n m data - (IZR i0 + Q2R s0 - IZR (Z.of_nat (n / 2))) * mass2 n m data ->
+   mom0 n m out / mass2 n m out - IZR (Z.of_nat (n / 2)) = mom0 n m data / mass2 n m data - (IZR i0 + Q2R s0))%R.
+Proof. exact shift1_centroid. Qed.
+Print Assumptions C12_shift1_centroid.
 
 (* center_image(method='image_center', crop='maintain_size'): odd_size gives an
    odd width for every input shape, every square flag, axes and order. *)
